@@ -325,7 +325,14 @@ fn check_poly_ray(h: &CaseH, c: &PolyRayCase) -> Verdict {
                         )
                     }
                     Some(tc) => {
-                        if (tc as f64 - t).abs() > 1e-3 * t.abs().max(1.0) {
+                        // conditioning of t = -z/(n.d) in f32: errors of ~1e-5 m in the plane distance and
+                        // ~4e-7 in n.d are amplified by 1/|n.d|
+                        let nd = {
+                            let d = ora::unit(ora::v3(&r.d));
+                            ora::dir_to_local(c.poly.tilt as f64, c.poly.azimuth as f64, d)[2].abs()
+                        };
+                        let tol = 1e-3 * t.abs().max(1.0) + (2e-5 + 4e-7 * t.abs()) / nd.max(1e-9);
+                        if (tc as f64 - t).abs() > tol {
                             return Verdict::fail(
                                 "C13:poly:wrong-t",
                                 format!("ray #{}: t={} reported, exact {:.5}", i, tc, t),
